@@ -2,6 +2,7 @@ import SasLexer.Spec.Basic
 import SasLexer.Properties.C03
 import SasLexer.Proofs.Kernel.Mono
 import SasLexer.Properties.C19
+import SasLexer.Proofs.Model.DiscTop
 /-!
 # C02 — tokens tile the source and end in a single EOF: theorems
 
@@ -14,10 +15,14 @@ configuration).  Proved here, for **every control logic over the primitives** (k
   never decrease; `kernel_C02_monotone_release` — the release build of the same control logic
   then has sorted starts too (transported through `run_profile`, the kernel theorem of C19).
 
-Not proved (model level, `_partial`): uniqueness of `EOF`, `EOF` at the end of the text and
-"first token at the BOM end" need the control logic's protocol (no `EOF` emitted before
-finalisation; the main loop ends at end of input) and totality (C01); they are decided per run
-by `Spec.C02` on implementation dumps plus model/implementation correspondence.
+Proved for the **modelled control logic, every input, both profiles** (`C02_model_single_eof`, from the
+scanning-discipline pass `Proofs/Model/Disc*.lean`): whenever the model returns at end of input, its token
+list is `pre ++ [eof]` with `eof` of type `EOF` at byte `utf8Len s` / char `s.length` and no `EOF` in `pre`,
+i.e. the clause `single-final-eof` of `Spec.C02` holds.
+
+Not proved (model level, `_partial`): "first token at the BOM end" and totality (C01: the model returns,
+i.e. no panic / fuel exhaustion); they are decided per run by `Spec.C02` on implementation dumps plus
+model/implementation correspondence.
 -/
 namespace SasLexer
 
@@ -66,5 +71,19 @@ theorem kernel_C02_monotone_release (c : Cfg) (hrel : c.debug = false) {α} (p :
 /-- non-vacuity: a run with rollback and zero-width recovery tokens on which all clauses hold -/
 example : Spec.C02 "%m(a =1 /*c*/ ; x".toList (modelDump ⟨true, true, false⟩ "%m(a =1 /*c*/ ; x".toList) = [] := by
   decide +kernel
+
+/-- **single final `EOF`** for the modelled lexer, every input, both profiles, both feature sets -/
+theorem C02_model_single_eof (cfg : Cfg) (s : List Char) (h : (lexProgram cfg s).ending = some .eof) :
+    ((lexProgram cfg s).buf.toks.filter (·.ty == .EOF)).length = 1 ∧
+    ∃ t, (lexProgram cfg s).buf.toks.getLast? = some t ∧ t.ty = .EOF ∧ t.byte = utf8Len s := by
+  obtain ⟨pre, e, htoks, hty, _, hbyte, hpre⟩ := model_single_eof cfg s h
+  rw [htoks]
+  refine ⟨?_, e, by simp, hty, hbyte⟩
+  rw [List.filter_append]
+  have : pre.filter (·.ty == .EOF) = [] := by
+    rw [List.filter_eq_nil_iff]
+    intro t ht
+    simpa using hpre t ht
+  simp [this, hty]
 
 end SasLexer
